@@ -3,3 +3,4 @@
 #include "vll_rt.h"
 int64_t _ZNSt6chrono3_V212system_clock3nowEv(void){ return (int64_t)vnd_u64(); }
 int64_t _ZNSt6chrono3_V212steady_clock3nowEv(void){ return (int64_t)vnd_u64(); }
+int getpid(void){ return 4242; }                 /* a concrete process id (a symbolic one makes std::to_string produce a symbolic-length string) */
